@@ -5,7 +5,7 @@
    settings and any key token t; the only hypothesis is that ring tokens are distinct and sorted, which
    Metadata.rebuild_token_map establishes (`sorted(ring)`). *)
 From Coq Require Import ZArith List Bool.
-From Verif Require Import RingBase Ring PlacementSpec C26_lookup C26_proofs.
+From Verif Require Import RingBase Ring PlacementSpec RingCache C26_lookup C26_proofs C26_cache.
 Import ListNotations.
 Local Open Scope Z_scope.
 
@@ -60,6 +60,27 @@ Print Assumptions C26_nts_unfixed_refuted.
 Theorem C26_nts_fixed_statement : C26_nts_statement driver_replicas.
 Proof. exact nts_correct. Qed.
 Print Assumptions C26_nts_fixed_statement.
+
+(* Metadata.get_replicas(keyspace, key) under Murmur3Partitioner: a key whose hash is Long.MIN_VALUE lives in the range of token Long.MAX_VALUE *)
+Theorem C26_key : forall loc s ring h, strictly_sorted (map fst ring) = true ->
+  NoDup (driver_replicas_for_hash loc s ring h) /\
+  (forall x, In x (driver_replicas_for_hash loc s ring h) <-> In x (natural_endpoints_for_hash loc (placement_of s) ring h)).
+Proof. exact key_correct. Qed.
+Print Assumptions C26_key.
+
+(* the cached replica map of a keyspace, under ANY interleaving of lookups, ALTER KEYSPACE events (settings written without the
+   lock, rebuild under _rebuild_lock) and evictions: whenever nothing is in flight, what a lookup is served was computed from the
+   CURRENT replication settings.  The atomic regions are checked on the source by the lock audit in checks/C26.py. *)
+Theorem C26_cache_current : forall v ops, forallb in_source ops = true ->
+  quiescent (crun (cinit v) ops) -> served (crun (cinit v) ops) = settings (crun (cinit v) ops).
+Proof. exact cache_current. Qed.
+Print Assumptions C26_cache_current.
+
+(* with the "is a rebuild needed" test outside the lock (and not repeated inside) a stale map is published and stays *)
+Theorem C26_cache_unlocked_refuted : exists ops,
+  quiescent (crun (cinit 0) ops) /\ served (crun (cinit 0) ops) <> settings (crun (cinit 0) ops).
+Proof. exists [QStart; QRead; ESet 1; ECheckUnlocked; QPublish]. cbn. repeat split. discriminate. Qed.
+Print Assumptions C26_cache_unlocked_refuted.
 
 (* non-vacuity: a two-datacenter ring, host 2 owning consecutive tokens, hypotheses satisfied, non-trivial answers *)
 Definition ex_loc : topo_t := topo_of [(1,(0,1)); (2,(0,1)); (3,(0,2)); (4,(0,1)); (5,(1,1)); (6,(1,1))].
